@@ -653,6 +653,54 @@ pub fn check_conc(ctx: &Ctx, out: &mut Outcome) {
     }
 }
 
+/// C19: no two live `&mut` to one value through the mutable iterators (run-time side)
+pub fn check_alias(ctx: &Ctx, out: &mut Outcome, q: u32, t: u32) {
+    use crate::alias::*;
+    let th = ctx.tier == Tier::Thorough;
+    let strat = move || acase_strategy(th);
+    let exec = |c: &ACase| run_alias(c);
+    let hash_case = |c: &ACase| {
+        let mut d = Case { kind: Kind::Lru, cfg: Cfg::simple(16), keys: KeyMode::Tracked, alphabet: 0, ops: vec![] };
+        d.cfg.sketch_seed = Some(fnv64(serde_json::to_string(c).unwrap_or_default().as_bytes()));
+        d
+    };
+    journal_for(ctx, "alias");
+    let (acc, found) = run_engine(&strat, &exec, &hash_case, &ctx.id, ctx.seed, 0xa11a5, ctx.workers, ctx.cases(q, t), &ctx.known);
+    let shrink = |c: &ACase, f: &dyn Fn(&ACase) -> bool| -> ACase {
+        let mut cur = c.clone();
+        let mut i = 0;
+        while i < cur.steps.len() {
+            let mut x = cur.clone();
+            x.steps.remove(i);
+            if f(&x) {
+                cur = x;
+            } else {
+                i += 1;
+            }
+        }
+        while !cur.touches.is_empty() {
+            let mut x = cur.clone();
+            x.touches.pop();
+            if f(&x) {
+                cur = x;
+            } else {
+                break;
+            }
+        }
+        while cur.n > 0 {
+            let mut x = cur.clone();
+            x.n -= 1;
+            if f(&x) {
+                cur = x;
+            } else {
+                break;
+            }
+        }
+        cur
+    };
+    finish(ctx, "", acc, found, out, "alias", &exec, &shrink);
+}
+
 /// C02 with key types whose borrowed form is unsized (prefix slices of one buffer, paths)
 pub fn check_keys(ctx: &Ctx, out: &mut Outcome, q: u32, t: u32) {
     use crate::keys::*;
